@@ -1971,6 +1971,21 @@ func RenameBackOverlay(pkgs []*packages.Package, current map[string][]byte) (map
 			// mean v), or (b) a use of v lies where N already means an object declared inside v's scope
 			// (the use would now mean that object). Found by a repaired twin: `tsOpt, tsErr := ...` was
 			// renamed back to `err`, which captured the `err` a later assignment in the block stores to.
+			// identifiers that are not looked up in the scope chain: selector names, struct literal keys
+			notScoped := map[*ast.Ident]bool{}
+			ast.Inspect(f, func(x ast.Node) bool {
+				switch y := x.(type) {
+				case *ast.SelectorExpr:
+					notScoped[y.Sel] = true
+				case *ast.KeyValueExpr:
+					if k, ok := y.Key.(*ast.Ident); ok {
+						if v, isVar := info.Uses[k].(*types.Var); isVar && v.IsField() {
+							notScoped[k] = true
+						}
+					}
+				}
+				return true
+			})
 			for changed := true; changed; {
 				changed = false
 				for o, nm := range rename {
@@ -1983,7 +1998,11 @@ func RenameBackOverlay(pkgs []*packages.Package, current map[string][]byte) (map
 						if unsafe {
 							break
 						}
-						if id.Name == nm && u != o && id.Pos() >= o.Pos() && id.Pos() < sc.End() && sc.Contains(id.Pos()) {
+						if notScoped[id] {
+							continue
+						}
+						if id.Name == nm && u != o && id.Pos() >= o.Pos() && id.Pos() < sc.End() && sc.Contains(id.Pos()) && visibleAt(pk.Types, o, id.Pos()) &&
+							!(u.Parent() != nil && u.Parent() != sc && sc.Contains(u.Pos()) && u.Pos() > o.Pos()) {
 							if n2, renamed := rename[u]; !renamed || n2 == nm {
 								if _, isVar := u.(*types.Var); isVar || u.Parent() != types.Universe {
 									unsafe = true
@@ -2066,4 +2085,15 @@ func RenameBackOverlay(pkgs []*packages.Package, current map[string][]byte) (map
 		}
 	}
 	return out, log
+}
+
+// visibleAt: looking up o's own name at pos finds o (its scope has begun there and nothing closer
+// shadows it).
+func visibleAt(pkg *types.Package, o types.Object, pos token.Pos) bool {
+	inner := pkg.Scope().Innermost(pos)
+	if inner == nil {
+		return false
+	}
+	_, q := inner.LookupParent(o.Name(), pos)
+	return q == o
 }
